@@ -858,6 +858,36 @@ example : (run tbl (St.init ed0) [.start, .write [esc, .accept, k 'z'], .read 9]
     (run tbl (St.init ed0) [.start, .write [esc, .accept, k 'z'], .read 9]).kp.queue = [some (k 'z')] := by
   decide
 
+/-! ### why the push-back matters: `_process` as it was before c3d528b (the retry loop went on
+    dispatching the rest of the key buffer to the finished application) violates the theorems -/
+def dispatchFuelOld (T : Tbl σ) : Nat → Bool → KP σ → Option (KP σ)
+  | 0, _, _ => none
+  | fuel + 1, flush, p =>
+    if p.buffer.isEmpty then some p else
+    let ex := T.exact p.ed p.buffer
+    let pre := isPrefix T flush p
+    if !pre && ex then some { callHandler T p p.buffer with buffer := [] }
+    else if !pre && !ex then dispatchFuelOld T fuel false (retryStep T p)
+    else some p
+
+/-- `a C-Space C-c Enter`, old code: Enter is dispatched to the prompt that c-c just aborted and
+    `app.exit()` is called a second time ("Return value already set") -/
+theorem old_code_dispatches_after_exit :
+    ∃ p', dispatchFuelOld Emacs.tbl 3 false
+        ⟨[], [.abort, .accept], false, false, [], ⟨⟨['a'], 1⟩, true⟩⟩ = some p' ∧
+      p'.crashed = true ∧
+      p'.trace = [.call [.abort] true, .call [.accept] true] := by
+  refine ⟨_, rfl, ?_, ?_⟩ <;> decide
+
+/-- the same input, current code: Enter goes back to the queue -/
+example : (dispatch Emacs.tbl false
+      ⟨[], [.abort, .accept], false, false, [], ⟨⟨['a'], 1⟩, true⟩⟩).crashed = false ∧
+    (dispatch Emacs.tbl false
+      ⟨[], [.abort, .accept], false, false, [], ⟨⟨['a'], 1⟩, true⟩⟩).queue = [some .accept] ∧
+    (dispatch Emacs.tbl false
+      ⟨[], [.abort, .accept], false, false, [], ⟨⟨['a'], 1⟩, true⟩⟩).trace = [.call [.abort] true] := by
+  decide
+
 end examples
 
 end Ptk.C17.Buf
